@@ -1079,6 +1079,16 @@ def _is_range(func, e, depth=0):
 # ----------------------------------------------------------------------
 # R16.5
 
+def _fresh(e):
+    """parent-less copy of an expression (a deepcopy would follow the
+    .parent links and copy the whole module)"""
+    t = e if isinstance(e, str) else txt(e)
+    try:
+        return ast.parse(t, mode="eval").body
+    except SyntaxError:
+        return ast.parse(f"_[{t}]", mode="eval").body.slice
+
+
 class _Expand(ast.NodeTransformer):
     def __init__(self, func, depth):
         self.func, self.depth = func, depth
@@ -1089,20 +1099,16 @@ class _Expand(ast.NodeTransformer):
                 and self.depth > 0:
             d = single_def(self.func, node.id)
             if d is not None and node.id not in names_in(d.value):
-                import copy as _copy
                 return _Expand(self.func, self.depth - 1).visit(
-                    _copy.deepcopy(d.value))
+                    _fresh(d.value))
         return node
 
 
 def expand(func, e):
     """text of e with single-assignment locals (not parameters, not
     self-referential bindings) replaced by their values"""
-    import copy as _copy
-    if isinstance(e, str):
-        e = ast.parse(e, mode="eval").body
-    return txt(ast.fix_missing_locations(
-        _Expand(func, 5).visit(_copy.deepcopy(e))))
+    # (re-parsed: a deepcopy would follow the .parent links)
+    return txt(_Expand(func, 5).visit(_fresh(e)))
 
 
 def _num(e, env):
@@ -1461,4 +1467,58 @@ TWINS = [
      ("            mids = np.where(self.filter.all)[0]\n"
       "            mask[mids] = idx\n",
       "            mask[self.filter.all] = idx\n")),
+    ('refactoring: scatter results bound to locals, mirrored guard', CORE,
+     [('        if downsample < 0:\n', '        if 0 > downsample:\n'),
+      ('        if ret_mask:\n'
+       '            # Mask is a boolean array of len(self)\n'
+       '            mask = np.zeros(len(self), dtype=bool)\n'
+       '            mids = np.where(self.filter.all)[0]\n'
+       '            mask[mids] = idx\n'
+       '            return x[idx], y[idx], mask\n'
+       '        else:\n'
+       '            return x[idx], y[idx]\n',
+       '        # Downsampled data (taken from the unscaled arrays)\n'
+       '        xnew = x[idx]\n'
+       '        ynew = y[idx]\n'
+       '\n'
+       '        if ret_mask:\n'
+       '            # Mask is a boolean array of len(self)\n'
+       '            mask = np.zeros(len(self), dtype=bool)\n'
+       '            mids = np.where(self.filter.all)[0]\n'
+       '            mask[mids] = idx\n'
+       '            return xnew, ynew, mask\n'
+       '        else:\n'
+       '            return xnew, ynew\n')]),
+    ('refactoring: mask translation extracted into a private method', CORE,
+     [('            # Mask is a boolean array of len(self)\n'
+       '            mask = np.zeros(len(self), dtype=bool)\n'
+       '            mids = np.where(self.filter.all)[0]\n'
+       '            mask[mids] = idx\n'
+       '            return x[idx], y[idx], mask\n'
+       '        else:\n'
+       '            return x[idx], y[idx]\n',
+       '            mask = self._filtered_mask_to_dataset_mask(idx)\n'
+       '            return x[idx], y[idx], mask\n'
+       '        else:\n'
+       '            return x[idx], y[idx]\n'
+       '\n'
+       '    def _filtered_mask_to_dataset_mask(self, idx):\n'
+       '        """Translate a mask over the filtered events to a dataset '
+       'mask\n'
+       '\n'
+       '        Parameters\n'
+       '        ----------\n'
+       '        idx: 1d boolean ndarray of length `np.sum(self.filter.all)`\n'
+       '            Selection among the events that pass `self.filter.all`\n'
+       '\n'
+       '        Returns\n'
+       '        -------\n'
+       '        mask: 1d boolean ndarray of length `len(self)`\n'
+       '            `True` for those events of the dataset selected by `idx`\n'
+       '        """\n'
+       '        # Mask is a boolean array of len(self)\n'
+       '        mask = np.zeros(len(self), dtype=bool)\n'
+       '        mids = np.where(self.filter.all)[0]\n'
+       '        mask[mids] = idx\n'
+       '        return mask\n')]),
 ]
